@@ -185,14 +185,14 @@ class TdMpsJob(object):
         os.makedirs(self.dump_dir, exist_ok=True)
         file_path = os.path.join(self.dump_dir, self.job_name + ".npz")
         bak_path = file_path + ".bak"
-        if os.path.exists(file_path):
-            # in case of shutdown while dumping
-            if os.path.exists(bak_path):
-                os.remove(bak_path)
-            os.rename(file_path, bak_path)
+        # in case of shutdown while dumping: write to a temporary file and atomically replace
+        # the result file, so that a complete file of the current or the previous step
+        # always exists (also when restarting into a directory left behind by a crash)
+        tmp_path = file_path + ".tmp.npz"
+        np.savez(tmp_path, **d)
+        os.replace(tmp_path, file_path)
 
-        np.savez(file_path, **d)
-
+        # backup file left behind by previous versions of the dumping protocol
         if os.path.exists(bak_path):
             os.remove(bak_path)
 
